@@ -287,14 +287,26 @@ def run(ctx):
                    msg=f'encode_cleanup does not free the {role} ' + ('fragments' if elem is None else 'pointer array'))
             continue
         i, d = elem
-        gg = g.defs.get(d.ops[0])
-        iv = Cg.val(strip_int_casts(g, gg.ops[-1])) if gg is not None and gg.op == 'getelementptr' else None
-        F = Facts(P, g, i.bb)
-        bounds = [b for b, strict, sg in F.upper_bound_sym(iv) if strict] if iv else []
-        if any(re.search(r'\.uargs\.%s$' % fld, b) for b in bounds):
+        # the freed elements are array[t] for t = 0 .. count-1 where count is the instance's k (data) / m (parity): the loop itself must
+        # run that many times - a guard `i < m` inside a loop that runs k times frees only min(k, m) of them
+        from ..poly import PolyCtx as _PC16, Poly as _Po16
+        from ..loops import loops_of as _lo16, innermost as _in16, affine_in_t as _af16
+        pcc = _PC16(P, g, Cg)
+        Lc = _in16(_lo16(P, g, pcc), i.bb)
+        okc, seen_tr = False, []
+        if Lc is not None:
+            pt = Lc.ptr_at_iteration(*pcc.ptr(d.ops[0]))
+            ab = _af16(pt[1]) if pt is not None else None
+            for gd in [x for x in Lc.guards() if x.block is Lc.header]:
+                T_ = Lc.trip(gd)
+                seen_tr.append(str(T_))
+                if T_ is not None and len(T_) == 1 and list(T_.values()) == [1] and re.search(r'\.uargs\.%s$' % fld, list(T_)[0][0]) and \
+                   ab is not None and ab[0].is_zero() and ab[1] == _Po16.const(8):
+                    okc = True
+        if okc:
             r.ok(inst, func=g.name, loc=i.loc)
         else:
-            r.fail(inst, func=g.name, sig=f'{role} loop bound {bounds}', loc=i.loc, msg=f'the {role} fragments are freed for i < {bounds}, expected i < {fld}')
+            r.fail(inst, func=g.name, sig=f'{role} loop runs {seen_tr}', loc=i.loc, msg=f'the loop that frees the {role} fragments runs {seen_tr} times, expected exactly {fld} iterations over {role}[0 .. {fld}-1]')
     dcl = P.fn('liberasurecode_decode_cleanup')
     if any(i.op == 'call' and i.callee == '@free' and strip_ptr_casts(dcl, i.ops[0]) == dcl.params[1][1] for i in dcl.insts()):
         r.ok('decode_cleanup frees the decoded buffer', func=dcl.name, loc=dcl.mod.src)
